@@ -336,3 +336,791 @@ def splitmix64(x):
     z = ((z ^ (z >> 30)) * 0xBF58476D1CE4E5B9) & M
     z = ((z ^ (z >> 27)) * 0x94D049BB133111EB) & M
     return z ^ (z >> 31)
+
+
+# ------------------------------------------------------------------------------------------ helpers for twins
+def retarget(op, slot):
+    t = op.split(" ", 1)
+    return f"{slot} {t[1]}"
+
+
+def same_obs(a, b, with_alloc=False):
+    """equality of two real observations (status, getters, untouched, data); allocation counts excluded"""
+    fa, fb = fields(a), fields(b)
+    return fa["status"] == fb["status"] and fa["g"] == fb["g"] and fa["d"] == fb["d"] and fa["u"] == fb["u"]
+
+
+# ------------------------------------------------------------------------------------------ C10
+@register
+class C10(Prop):
+    pid = "C10"
+    rule = ("twin histories: slot 0 = fresh instance driven by a random valid history (ratio changes with/without ramp, "
+            "pending ramps, chunk-size changes, masked calls, failed calls, partial calls) then reset(); slot 1 = new "
+            "instance with the same parameters; then the same operations on both, observations compared bit for bit. "
+            "distinct = (config, feature set before reset); non-trivial = the pre-reset history changed ratio, chunk size, "
+            "or had a failed or masked call, and >= 1 processing call follows the reset")
+    assumptions = COMMON_ASSUME
+    n_quick = 140
+    n_thorough = 4000
+
+    def scenarios(self, rng):
+        hs = []
+        for _ in range(self.n):
+            cfg = gen.gen_cfg(rng, max_chunk=400)
+            pre = gen.gen_valid_history(rng, cfg, rng.randint(2, 25), ratio_changes="calm", masks="vary")
+            ops = list(pre.ops)
+            feats = set(pre.meta["feats"])
+            # a failed call and a pending ramp right before the reset, sometimes
+            if rng.random() < 0.4:
+                ops.append("0 proc - n-1 n i")
+                feats.add("failed")
+            if cfg.kind in gen.ASYNC and cfg.maxrel > 1.0 and rng.random() < 0.5:
+                r, rel = gen.in_range_ratio(rng, cfg, calm=True)
+                ops.append(f"0 ratio {hx(r)} 1")
+                feats.add("pending-ramp")
+            reset_at = len(ops)
+            ops.append("0 reset")
+            ops.append(cfg.new(1))
+            post = gen.gen_valid_history(rng, cfg, rng.randint(3, 15), ratio_changes="calm", masks="const")
+            pairs = 0
+            for op in post.ops[1:]:
+                ops.append(op)
+                ops.append(retarget(op, 1))
+                pairs += 1
+            h = History(ops, {"cfg": cfg.line, "kind": cfg.kind, "ty": cfg.ty, "feats": sorted(feats),
+                              "reset_at": reset_at, "pairs": pairs})
+            hs.append(h)
+        return hs
+
+    def nontrivial(self, h):
+        f = set(h.meta.get("feats", []))
+        return bool(f & {"ratio-ramp", "ratio-step", "chunk", "failed", "pending-ramp", "part"}) and h.meta.get("pairs", 0) > 0
+
+    def oracle(self, h):
+        out = []
+        k0 = h.meta.get("reset_at")
+        if k0 is None:
+            return out
+        # getters after reset == getters of the fresh twin
+        infos = {}
+        for k, slot, name, t, fr, fm, info, gb in walk(h):
+            infos[slot] = info
+        ra, rb = fields(h.real[k0]), fields(h.real[k0 + 1])
+        if ra["g"] != rb["g"] and ra["status"] == "ok" and rb["status"] == "ok":
+            out.append(viol("C10", h, k0, infos.get("0"), "getters-after-reset",
+                            {"reset": ra["g"], "fresh": rb["g"]}))
+            return out
+        k = k0 + 2
+        while k + 1 < len(h.ops):
+            if h.real[k] in ("skip",) or h.real[k + 1] in ("skip",):
+                break
+            if not same_obs(h.real[k], h.real[k + 1]):
+                out.append(viol("C10", h, k, infos.get("0"), "future-after-reset",
+                                {"after_reset": h.real[k][:200], "fresh": h.real[k + 1][:200]}))
+                break
+            k += 2
+        return out
+
+
+# ------------------------------------------------------------------------------------------ C12
+def ulps(x, n):
+    import struct
+    b = struct.unpack("<q", struct.pack("<d", x))[0]
+    return struct.unpack("<d", struct.pack("<q", b + n))[0]
+
+
+@register
+class C12(Prop):
+    pid = "C12"
+    rule = ("boundary histories: set_resample_ratio / _relative at the exact bounds orig*max, orig/max, max, 1/max, "
+            "their f64 neighbours (+-1, +-2 ulp), values 1e-6 inside/outside, 0, negative, subnormal, NaN, +-inf, with and "
+            "without ramp; set_chunk_size at 0, 1, max, max+1, huge; on all seven types. Decision compared with the exact "
+            "rational range test on the exact values of the floats. distinct = (type, orig, max, argument class)")
+    assumptions = COMMON_ASSUME + ["decisions within 4 ulp of a bound are classified as the recorded finding D9 (the f64 test "
+                                   "new/orig cannot be exact); anything beyond that band is a violation"]
+    n_quick = 120
+    n_thorough = 3000
+
+    def scenarios(self, rng):
+        hs = []
+        origs = [1.0, 0.1, 0.3, 1.0 / 3.0, 44100 / 48000, 48000 / 44100, 2.0, 0.5, 7.3, 0.07, 16.0, 1 / 16]
+        maxs = [1.0, 1.1, 2.0, 3.0, 10.0, 1.5, 1.0000001, 100.0]
+        for i in range(self.n):
+            kind = rng.choice(gen.ALL)
+            if kind in gen.ASYNC:
+                orig = rng.choice(origs) if rng.random() < 0.7 else gen.pick_ratio(rng)
+                maxrel = rng.choice(maxs)
+                cfg = gen.gen_cfg(rng, kinds=[kind], max_chunk=64)
+                # rebuild the config line with our orig/maxrel
+                p = cfg.line.split()
+                p[2], p[3] = hx(orig), hx(maxrel)
+                cfg.line = " ".join(p)
+                cfg.ratio, cfg.maxrel = orig, maxrel
+            else:
+                cfg = gen.gen_cfg(rng, kinds=[kind])
+                orig, maxrel = 1.0, 1.0
+            ops = [cfg.new(0)]
+            args = []
+            hi, lo = orig * maxrel, orig / maxrel
+            for b in (hi, lo):
+                for d in (0, 1, -1, 2, -2):
+                    args.append(("ratio", ulps(b, d), "bound%+d" % d))
+                args.append(("ratio", b * (1 + 1e-6), "near+"))
+                args.append(("ratio", b * (1 - 1e-6), "near-"))
+            for b in (maxrel, 1.0 / maxrel):
+                for d in (0, 1, -1, 2, -2):
+                    args.append(("rel", ulps(b, d), "bound%+d" % d))
+                args.append(("rel", b * (1 + 1e-6), "near+"))
+                args.append(("rel", b * (1 - 1e-6), "near-"))
+            for v, c in ((0.0, "zero"), (-0.0, "zero"), (-1.0, "neg"), (5e-324, "subnormal"), (float("nan"), "nan"),
+                         (float("inf"), "inf"), (float("-inf"), "inf"), (orig, "orig"), (1e308, "huge")):
+                args.append((rng.choice(["ratio", "rel"]), v, c))
+            rng.shuffle(args)
+            classes = set()
+            for name, v, c in args[:rng.randint(8, len(args))]:
+                ops.append(f"0 {name} {hx(v)} {rng.choice([0, 1])}")
+                classes.add(c)
+                if rng.random() < 0.3:
+                    ops.append("0 proc - n m r%d" % rng.randint(0, 99))
+            chunk = cfg.chunk
+            for n in (0, 1, chunk, chunk + 1, max(1, chunk // 2), 2 ** 63, 2 ** 64 - 1):
+                if rng.random() < 0.7:
+                    ops.append(f"0 chunk {n}")
+                    ops.append("0 proc - n m r1")
+            hs.append(History(ops, {"cfg": cfg.line, "kind": cfg.kind, "ty": cfg.ty, "feats": sorted(classes),
+                                    "orig": orig, "maxrel": maxrel, "chunk": chunk}))
+        return hs
+
+    def distinct_key(self, h):
+        return (h.meta["kind"], h.meta.get("orig"), h.meta.get("maxrel"), tuple(h.meta["feats"]))
+
+    def oracle(self, h):
+        from fractions import Fraction
+        out = []
+        for k, slot, name, t, fr, fm, info, gb in walk(h):
+            if info is None or fr is None or name not in ("ratio", "rel", "chunk", "proc"):
+                continue
+            st = fr["status"]
+            if st in ("skip",):
+                break
+            if info.kind in gen.FFT:
+                want = {"ratio": "err SyncNotAdjustable", "rel": "err SyncNotAdjustable",
+                        "chunk": "err ChunkSizeNotAdjustable"}.get(name)
+                if want and st != want:
+                    out.append(viol("C12", h, k, info, "sync-setter", {"want": want, "got": st}))
+                if name != "proc" and fr["g"] != gb:
+                    out.append(viol("C12", h, k, info, "rejected-call-changed-getters", {"before": gb, "after": fr["g"]}))
+                continue
+            if name in ("ratio", "rel"):
+                v = unhx(t[2])
+                if v != v or v in (float("inf"), float("-inf")):
+                    exact_ok = False
+                    band = False
+                else:
+                    x = Fraction(v)
+                    o, m = Fraction(info.orig), Fraction(info.maxrel)
+                    if name == "ratio":
+                        lo, hi = o / m, o * m
+                    else:
+                        lo, hi = 1 / m, m
+                    exact_ok = lo <= x <= hi
+                    band = any(b != 0 and abs(x / b - 1) <= Fraction(1, 2 ** 50) for b in (lo, hi))
+                got_ok = st == "ok"
+                if st not in ("ok", "err RatioOutOfBounds"):
+                    out.append(viol("C12", h, k, info, "setter-status", {"got": st}))
+                elif got_ok != exact_ok:
+                    v_ = viol("C12", h, k, info, "boundary-rounding" if band else "range-decision",
+                              {"arg": v, "orig": info.orig, "max": info.maxrel, "exact_ok": exact_ok, "got": st},
+                              model_same=(fm is not None and fm["status"] == st))
+                    out.append(v_)
+                if not got_ok and fr["g"] != gb:
+                    out.append(viol("C12", h, k, info, "rejected-call-changed-getters", {"before": gb, "after": fr["g"]}))
+            elif name == "chunk":
+                n = int(t[2])
+                if info.kind in ("sincin", "sincout"):
+                    want_ok = 1 <= n <= info.chunk0
+                    if (st == "ok") != want_ok or (not want_ok and st != f"err InvalidChunkSize {info.chunk0} {n}"):
+                        out.append(viol("C12", h, k, info, "chunk-decision", {"n": n, "max": info.chunk0, "got": st}))
+                    if st == "ok":
+                        idx = 0 if info.kind == "sincin" else 2
+                        if fr["g"][idx] != n:
+                            out.append(viol("C12", h, k, info, "chunk-not-applied", {"n": n, "getters": fr["g"]}))
+                else:
+                    if st != "err ChunkSizeNotAdjustable":
+                        out.append(viol("C12", h, k, info, "chunk-decision", {"n": n, "got": st}))
+                if st != "ok" and fr["g"] != gb:
+                    out.append(viol("C12", h, k, info, "rejected-call-changed-getters", {"before": gb, "after": fr["g"]}))
+            elif name == "proc" and st.startswith("ok") and info.kind in ("sincin", "sincout"):
+                a = st.split()
+                if info.kind == "sincin" and int(a[1]) != info.chunk:
+                    out.append(viol("C12", h, k, info, "next-call-size", {"chunk": info.chunk, "got": st}))
+                if info.kind == "sincout" and int(a[2]) != info.chunk:
+                    out.append(viol("C12", h, k, info, "next-call-size", {"chunk": info.chunk, "got": st}))
+        return out[:3]
+
+
+# ------------------------------------------------------------------------------------------ C13
+@register
+class C13(Prop):
+    pid = "C13"
+    rule = ("twin histories: slot 0 receives malformed processing calls (too few/many input or output channels, an active "
+            "input/output channel short by 1..all frames, mask too short/long/empty, through process_into_buffer, "
+            "process_partial_into_buffer, process and process_partial) at random points of a valid history; slot 1 receives "
+            "only the valid calls. Every malformed call must return Err (no panic), write nothing, keep the getters, and all "
+            "later observations of the two slots must be identical. Invalid constructor arguments: zero/negative/NaN ratios, "
+            "max relative ratio < 1, zero rates. distinct = (type, malformed kind)")
+    assumptions = COMMON_ASSUME
+    n_quick = 140
+    n_thorough = 4000
+
+    def malformed(self, rng, cfg, mask):
+        n = cfg.nch
+        c = rng.random()
+        if c < 0.12:
+            return f"proc {mask} n m r1 ic={rng.choice([0, max(0, n - 1), n + 1, n + 3])}", "in-channels"
+        if c < 0.24:
+            return f"proc {mask} n m r1 oc={rng.choice([0, max(0, n - 1), n + 1, n + 2])}", "out-channels"
+        if c < 0.40:
+            ch = rng.randrange(n)
+            return f"proc - n-{rng.choice([1, 1, 2, 5, 100000])} m r1", "in-short"
+        if c < 0.50:
+            ch = rng.randrange(n)
+            return f"proc - n m r1 si={ch}:0", "in-empty"
+        if c < 0.66:
+            return f"proc - n n-{rng.choice([1, 1, 2, 7, 100000])} r1", "out-short"
+        if c < 0.74:
+            ch = rng.randrange(n)
+            return f"proc - n m r1 so={ch}:0", "out-empty"
+        if c < 0.90:
+            m = rng.choice(["e", "1" * (n + 1), "1" * max(0, n - 1) if n > 1 else "e", "0" * (n + 2), "10" * n])
+            op = rng.choice(["proc {m} n m r1", "part {m} none m r1", "procw {m} n r1", "partw {m} none r1"])
+            return op.format(m=m), "mask-length"
+        return rng.choice([f"procw - n-1 r1", f"part - n n-1 r1", f"procw - n r1 ic={n + 1}"]), "wrapper-malformed"
+
+    def scenarios(self, rng):
+        hs = []
+        for i in range(self.n):
+            cfg = gen.gen_cfg(rng, max_chunk=300)
+            base = gen.gen_valid_history(rng, cfg, rng.randint(4, 18), ratio_changes="calm", masks="none")
+            ops = [cfg.new(0), cfg.new(1)]
+            kinds = set()
+            bad_at = []
+            bad_kind = {}
+            for op in base.ops[1:]:
+                if rng.random() < 0.35:
+                    m, kname = self.malformed(rng, cfg, "-")
+                    # a malformed call must be malformed: input channel count equal to nch is not
+                    bad_at.append(len(ops))
+                    bad_kind[len(ops)] = kname
+                    ops.append(f"0 {m}")
+                    kinds.add(kname)
+                ops.append(op)
+                ops.append(retarget(op, 1))
+            hs.append(History(ops, {"cfg": cfg.line, "kind": cfg.kind, "ty": cfg.ty, "feats": sorted(kinds),
+                                    "bad_at": bad_at, "bad_kind": bad_kind}))
+        # constructors
+        for i in range(max(10, self.n // 6)):
+            ty = rng.choice(["f32", "f64"])
+            bad = rng.choice([0.0, -1.0, -0.0, float("nan"), float("-inf")])
+            k = rng.choice(gen.ALL)
+            if k in ("fastin", "fastout"):
+                line = f"{ty} {k} {hx(bad)} {hx(2.0)} 2 32 2" if rng.random() < 0.5 else f"{ty} {k} {hx(1.0)} {hx(rng.choice([0.5, 0.999999, -1.0, 0.0]))} 2 32 2"
+            elif k in ("sincin", "sincout"):
+                line = (f"{ty} {k} {hx(bad)} {hx(2.0)} 2 64 16 {hx32(0.95)} 2 32 2 probe" if rng.random() < 0.5 else
+                        f"{ty} {k} {hx(1.0)} {hx(rng.choice([0.5, 0.999999, -1.0]))} 2 64 16 {hx32(0.95)} 2 32 2 probe")
+            elif k == "fftio":
+                line = f"{ty} fftio {rng.choice(['0 48000', '44100 0', '0 0'])} 64 2"
+            else:
+                line = f"{ty} {k} {rng.choice(['0 48000', '44100 0', '0 0'])} 64 2 2"
+            hs.append(History([f"0 new {line}"], {"cfg": line, "kind": k, "ty": ty, "feats": ["ctor"], "ctor": True,
+                                                   "nan": bad != bad}))
+        return hs
+
+    def distinct_key(self, h):
+        return (h.meta["kind"], tuple(h.meta["feats"]))
+
+    def oracle(self, h):
+        out = []
+        if h.meta.get("ctor"):
+            st = h.real[0].split(" | ")[0]
+            if not st.startswith("err Invalid"):
+                # NaN ratio is accepted by the constructors (NaN <= 0.0 is false): outside the statement ("non-positive")
+                if not h.meta.get("nan"):
+                    out.append({"property": "C13", "kind": h.meta["kind"], "clause": "ctor-accepts-invalid", "step": 0,
+                                "op": h.ops[0], "real": h.real[0], "ops": h.ops, "meta": h.meta, "calm": True})
+            return out
+        bad_at = set(h.meta.get("bad_at", []))
+        infos = {}
+        k = 2
+        for kk, slot, name, t, fr, fm, info, gb in walk(h):
+            infos[slot] = info
+            if kk in bad_at:
+                st = fr["status"]
+                if st == "skip":
+                    break
+                if not st.startswith("err"):
+                    bk = h.meta.get("bad_kind", {}).get(kk) or h.meta.get("bad_kind", {}).get(str(kk))
+                    if st.startswith("ok") and gb is not None and (
+                            (bk in ("in-short", "in-empty", "wrapper-malformed") and gb[0] == 0) or
+                            (bk in ("out-short", "out-empty", "wrapper-malformed") and gb[2] == 0)):
+                        # nothing was required of that buffer, so the call was not malformed after all:
+                        # this history says nothing (the twin did not get the call)
+                        h.meta["not_malformed"] = True
+                        return []
+                    out.append(viol("C13", h, kk, info, "malformed-not-rejected:" + st.split(" ")[0], {"got": h.real[kk][:200]}))
+                    return out
+                if fr["u"] == "0":
+                    out.append(viol("C13", h, kk, info, "malformed-call-wrote-output", {"got": h.real[kk][:200]}))
+                    return out
+                if gb is not None and fr["g"] != gb:
+                    out.append(viol("C13", h, kk, info, "malformed-call-changed-getters", {"before": gb, "after": fr["g"]}))
+                    return out
+        # twin comparison of the valid ops
+        k = 2
+        while k < len(h.ops):
+            if k in bad_at:
+                k += 1
+                continue
+            if k + 1 >= len(h.ops):
+                break
+            if h.real[k] == "skip" or h.real[k + 1] == "skip":
+                break
+            if not same_obs(h.real[k], h.real[k + 1]):
+                out.append(viol("C13", h, k, infos.get("0"), "failed-call-not-invisible",
+                                {"with_failed_calls": h.real[k][:200], "without": h.real[k + 1][:200]}))
+                break
+            k += 2
+        return out
+
+
+# ------------------------------------------------------------------------------------------ C16
+@register
+class C16(Prop):
+    pid = "C16"
+    rule = ("twin histories on all seven types and both sample types: slot 0 calls process / process_partial_into_buffer / "
+            "process_partial (also through &mut dyn VecResampler), slot 1 calls process_into_buffer on the equivalent explicit "
+            "input (truncated and zero-padded to input_frames_next, or all zeros for None) with allocate-sized buffers; "
+            "returned frames, lengths and getters compared bit for bit. distinct = (config, wrapper kinds used); "
+            "non-trivial = a partial call with 1 <= len < input_frames_next or a masked wrapper call")
+    assumptions = COMMON_ASSUME
+    n_quick = 140
+    n_thorough = 4000
+
+    def scenarios(self, rng):
+        hs = []
+        for i in range(self.n):
+            cfg = gen.gen_cfg(rng, max_chunk=300)
+            ops = [cfg.new(0), cfg.new(1)]
+            feats = set()
+            mask = gen.rand_mask(rng, cfg.nch)
+            sg = gen.rand_sig(rng)
+            pairs = []
+            for _ in range(rng.randint(3, 16)):
+                c = rng.random()
+                dy = " dyn" if rng.random() < 0.3 else ""
+                if c < 0.3:
+                    a, b, f = f"procw {mask} n {sg}{dy}", f"proc {mask} n n {sg}", "process"
+                elif c < 0.5:
+                    k = rng.randint(0, 6)
+                    a, b, f = f"part {mask} p{k} m {sg}{dy}", f"proc {mask} n m {sg} zl=p{k}", "partial-some"
+                elif c < 0.62:
+                    a, b, f = f"part {mask} none m {sg}{dy}", f"proc {mask} n m z", "partial-none"
+                elif c < 0.74:
+                    k = rng.randint(0, 6)
+                    a, b, f = f"partw {mask} p{k} {sg}{dy}", f"proc {mask} n n {sg} zl=p{k}", "process_partial"
+                elif c < 0.8:
+                    a, b, f = f"partw {mask} none {sg}{dy}", f"proc {mask} n n z", "process_partial-none"
+                elif c < 0.9:
+                    a, b, f = f"proc {mask} n m {sg} dyn", f"proc {mask} n m {sg}", "dyn-forward"
+                else:
+                    if cfg.kind in gen.ASYNC and cfg.maxrel > 1:
+                        r, rel = gen.in_range_ratio(rng, cfg, calm=True)
+                        a, b, f = f"ratio {hx(r)} 0 dyn", f"ratio {hx(r)} 0", "dyn-setter"
+                    else:
+                        a, b, f = "get", "get", "get"
+                if mask != "-":
+                    feats.add("masked")
+                feats.add(f)
+                pairs.append(len(ops))
+                ops.append(f"0 {a}")
+                ops.append(f"1 {b}")
+            hs.append(History(ops, {"cfg": cfg.line, "kind": cfg.kind, "ty": cfg.ty, "feats": sorted(feats),
+                                    "pairs": pairs}))
+        return hs
+
+    def nontrivial(self, h):
+        f = set(h.meta["feats"])
+        return bool(f & {"partial-some", "process_partial", "masked"})
+
+    def oracle(self, h):
+        out = []
+        infos = {}
+        for kk, slot, name, t, fr, fm, info, gb in walk(h):
+            infos[slot] = info
+        for k in h.meta.get("pairs", []):
+            ra, rb = h.real[k], h.real[k + 1]
+            if ra == "skip" or rb == "skip":
+                break
+            fa, fb = fields(ra), fields(rb)
+            name = h.ops[k].split()[1]
+            bad = None
+            if fa["g"] != fb["g"]:
+                bad = "getters"
+            elif name in ("procw", "partw"):
+                # wrapper: `ok len,len,..`, data hashes of whole vectors; core: `ok in out`, hashes of written frames
+                if fa["status"].startswith("ok") and fb["status"].startswith("ok"):
+                    lens = [int(x) for x in fa["status"].split()[1].split(",")] if len(fa["status"].split()) > 1 else []
+                    nout = int(fb["status"].split()[2])
+                    for c, (da, db) in enumerate(zip(fa["d"], fb["d"])):
+                        if db == "-":
+                            if lens[c] != 0:
+                                bad = "masked-channel-not-empty"
+                        else:
+                            if lens[c] != nout:
+                                bad = "wrapper-length"
+                            elif da != db:
+                                bad = "wrapper-data"
+                elif fa["status"] != fb["status"]:
+                    bad = "status"
+            else:
+                if fa["status"] != fb["status"] or fa["d"] != fb["d"]:
+                    bad = "data" if fa["status"] == fb["status"] else "status"
+            if bad:
+                out.append(viol("C16", h, k, infos.get("0"), "wrapper-vs-core:" + bad,
+                                {"wrapper": ra[:240], "core": rb[:240]}))
+                break
+        return out
+
+
+# ------------------------------------------------------------------------------------------ C18
+@register
+class C18(Prop):
+    pid = "C18"
+    rule = ("every generated history (all seven types, f32/f64, ratio/chunk changes, masks, wrappers; several instances per "
+            "history) is executed by the real crate once alone on one thread and once concurrently with all the others on up "
+            "to 16 threads, the owning session migrating to another thread every 1-3 calls (constructors included, so FFT "
+            "planners and CPU-feature detection run concurrently); both observation streams must be identical, and the solo "
+            "stream must equal the model's. distinct = (config set, feature set); non-trivial = the history migrated "
+            "between >= 2 threads")
+    assumptions = COMMON_ASSUME + ["the OS scheduler and the memory model are outside the model: no theorem exhibits a data race"]
+    n_quick = 96
+    n_thorough = 1500
+
+    def scenarios(self, rng):
+        hs = []
+        for i in range(self.n):
+            nslots = rng.choice([1, 2, 3])
+            ops = []
+            feats = set()
+            cfgs = []
+            for sl in range(nslots):
+                cfg = gen.gen_cfg(rng, max_chunk=300, probe=rng.random() < 0.5)
+                cfgs.append(cfg.line)
+                hsub = gen.gen_valid_history(rng, cfg, rng.randint(3, 14), slot=sl, ratio_changes="calm")
+                feats |= set(hsub.meta["feats"])
+                ops.append(hsub.ops)
+            # interleave the slots' ops
+            merged = []
+            idx = [0] * nslots
+            while any(idx[k] < len(ops[k]) for k in range(nslots)):
+                k = rng.choice([k for k in range(nslots) if idx[k] < len(ops[k])])
+                merged.append(ops[k][idx[k]])
+                idx[k] += 1
+            hs.append(History(merged, {"cfg": " ; ".join(cfgs), "kind": "mixed", "ty": "mixed", "feats": sorted(feats)}))
+        return hs
+
+    def nontrivial(self, h):
+        return h.meta.get("threads", 0) >= 2
+
+    def extra(self, rng, cov):
+        import subprocess
+        import tempfile
+        viols, notes = [], []
+        hs = getattr(self, "_last", None)
+        return viols, notes
+
+    def run(self, rng, histories=None, have_model=True):
+        import subprocess
+        import shutil
+        hs = histories if histories is not None else (self.corpus() + self.scenarios(rng))
+        res = Prop.run(self, rng, histories=hs, have_model=have_model)
+        d = os.path.join(build.WORK, f"threads-{os.getpid()}")
+        os.makedirs(d, exist_ok=True)
+        files = []
+        for k, h in enumerate(hs):
+            p = os.path.join(d, f"h{k}.txt")
+            with open(p, "w") as f:
+                f.write(h.text(k))
+            files.append(p)
+        nthreads = 16
+        rounds = 1 if self.tier == "quick" else 4
+        migrated = 0
+        for r in range(rounds):
+            p = subprocess.run([build.WORKER, "threads", str(nthreads)] + files, stdout=subprocess.PIPE,
+                               stderr=subprocess.PIPE, text=True, timeout=3600)
+            if p.returncode != 0:
+                res["violations"].append({"property": "C18", "kind": "mixed", "clause": "thread-run-crashed", "calm": True,
+                                          "step": 0, "op": "threads", "detail": p.stderr[-400:], "ops": [], "meta": {}})
+                break
+            for line in p.stdout.splitlines():
+                t = line.split()
+                if t[0] == "diff":
+                    k = files.index(t[1])
+                    step = int(t[2].split("=")[1])
+                    res["violations"].append({"property": "C18", "kind": "mixed", "clause": "threaded-run-differs",
+                                              "calm": True, "step": step, "op": hs[k].ops[max(0, step - 1)],
+                                              "detail": "observation stream differs between the solo run and the "
+                                                        f"{nthreads}-thread run with migration", "ops": hs[k].ops,
+                                              "meta": hs[k].meta})
+                elif t[0] == "same":
+                    k = files.index(t[1])
+                    th = int(t[3].split("=")[1])
+                    hs[k].meta["threads"] = max(hs[k].meta.get("threads", 0), th)
+                elif t[0] == "summary":
+                    migrated += int(t[3].split("=")[1])
+        shutil.rmtree(d, ignore_errors=True)
+        res["coverage"]["distinct"] = {self.distinct_key(h) for h in hs if self.nontrivial(h)}
+        res["coverage"]["dist"]["thread_migrations"] = migrated
+        res["coverage"]["dist"]["threads"] = nthreads
+        res["coverage"]["dist"]["rounds"] = rounds
+        return res
+
+
+# ------------------------------------------------------------------------------------------ C09
+RT_OPS = ("proc", "ratio", "rel", "chunk", "reset", "get")
+
+
+@register
+class C09(Prop):
+    pid = "C09"
+    rule = ("every generated valid history on all seven types x {f32,f64} (first calls, calls after ratio/chunk changes and "
+            "after reset, masked calls, larger-than-needed buffers, failing calls): the counting global allocator of the "
+            "harness must report (alloc, realloc, dealloc) = (0,0,0) around every process_into_buffer, setter, reset and getter "
+            "call, and > 0 around the allocating wrappers (so the counter is known to work). distinct = (config, op kinds); "
+            "non-trivial = >= 1 real-time call after a ratio/chunk change or reset, or a masked call")
+    assumptions = COMMON_ASSUME + ["allocation inside realfft/rustfft is observed by the counter, not modelled",
+                                   "the `log` feature is off in the harness build"]
+    n_quick = 160
+    n_thorough = 5000
+
+    def scenarios(self, rng):
+        hs = []
+        for i in range(self.n):
+            cfg = gen.gen_cfg(rng, max_chunk=500, probe=rng.random() < 0.4)
+            h = gen.gen_valid_history(rng, cfg, rng.randint(4, 30), ratio_changes="calm", masks="vary")
+            if rng.random() < 0.3:
+                h.ops.append("0 proc - n-1 n i")
+                h.ops.append("0 proc - n n-1 i")
+                h.ops.append("0 proc 1 n n i" if cfg.nch != 1 else "0 proc 11 n n i")
+            hs.append(h)
+        return hs
+
+    def nontrivial(self, h):
+        return bool(set(h.meta.get("feats", [])) & {"ratio-ramp", "ratio-step", "chunk", "reset"})
+
+    def oracle(self, h):
+        out = []
+        wrapper_allocs = 0
+        for k, slot, name, t, fr, fm, info, gb in walk(h):
+            if fr is None or fr["a"] is None or info is None:
+                continue
+            if name in RT_OPS and fr["a"] != "0,0,0":
+                out.append(viol("C09", h, k, info, "heap-traffic-in-realtime-path:" + name,
+                                {"alloc,realloc,dealloc": fr["a"]}))
+                break
+            if name in ("procw", "partw", "part") and fr["status"].startswith("ok"):
+                wrapper_allocs += int(fr["a"].split(",")[0])
+        h.meta["wrapper_allocs"] = wrapper_allocs
+        return out
+
+
+# ------------------------------------------------------------------------------------------ C15
+def run_lines(cmd, lines):
+    import subprocess
+    p = subprocess.run(cmd, input="\n".join(lines) + "\n", stdout=subprocess.PIPE, stderr=subprocess.PIPE, text=True,
+                       timeout=3600)
+    return p.stdout.splitlines(), p.returncode
+
+
+def kern_wave_value(spec, k, index, length):
+    kind, arg = spec.split(":")
+    a = int(arg)
+    K2 = 0xC2B2AE3D27D4EB4F
+    h = splitmix64(a ^ ((k * K2) & 0xFFFFFFFFFFFFFFFF))
+    noise = (h >> 11) * (1.0 / 4503599627370496.0) - 1.0
+    if kind == "imp":
+        return 1.0 if k == a else 0.0
+    if kind == "int":
+        return float(h % 17) - 8.0
+    if kind == "rnd":
+        return noise
+    if kind == "dyn":
+        e = (splitmix64(h) % 81) - 40
+        return noise * (2.0 ** e)
+    if kind == "poi":
+        return noise if index <= k < index + length else float("nan")
+    raise ValueError(spec)
+
+
+@register
+class C15(Prop):
+    pid = "C15"
+    rule = ("kernel protocol against the real ScalarInterpolator / AvxInterpolator / SseInterpolator (f32 and f64): tables read "
+            "out with unit impulses must be bit-identical across the three kernels and agree with the model's make_sincs; "
+            "dot products on impulse, small-integer, noise, huge-dynamic-range and NaN-poisoned waves (NaN everywhere outside "
+            "the window) at every alignment: SIMD vs scalar within 8*eps*sum|wave*tap|, the Lean lane models of the scalar and "
+            "SSE kernels bit-exact against the real ones (AVX within the FMA tolerance), a NaN-poisoned wave must give a finite "
+            "value, an index with index+len >= wave.len() must panic. distinct = (T, len, osf, window, wave kind, index mod 8)")
+    assumptions = COMMON_ASSUME + ["NEON kernels are modelled from the source and proved, not executed (x86-64 host)",
+                                   "the ulp bound is checked, not proved; FMA contraction makes AVX differ from the unfused model"]
+    n_quick = 24
+    n_thorough = 400
+
+    def run(self, rng, histories=None, have_model=True):
+        import struct
+        from fractions import Fraction
+        viols, disag, notes = [], [], []
+        distinct = set()
+        nq = 0
+        samples = []
+        cfgs = []
+        for i in range(self.n):
+            ty = rng.choice(["f64", "f32"])
+            ln = rng.choice([8, 16, 24, 32, 64, 128, 256] if self.tier == "quick" else [8, 16, 24, 32, 64, 128, 256, 512])
+            osf = rng.choice([1, 2, 3, 16] if ln > 64 else [1, 2, 3, 16, 128])
+            fc = rng.choice([0.95, 0.9, 0.5, 0.99])
+            win = rng.randint(0, 5)
+            cfgs.append((ty, ln, osf, fc, win))
+        kinds = ["scalar", "avx", "sse"]
+        # 1. tables
+        lines = []
+        for (ty, ln, osf, fc, win) in cfgs:
+            for kd in kinds:
+                lines.append(f"tab {ty} {kd} {ln} {osf} {hx32(fc)} {win}")
+        out, rc = run_lines([build.WORKER, "kern"], lines)
+        tabs = {}
+        for ln_, o in zip(lines, out):
+            tabs[ln_] = o
+        mlines = [f"ktab {ty} {ln} {osf} {hx32(fc)} {win}" for (ty, ln, osf, fc, win) in cfgs] if have_model else []
+        mout, _ = run_lines([build.DRIVER], mlines) if mlines else ([], 0)
+        unavailable = set()
+
+        def dec(tok, ty):
+            return proto.unhx32(tok) if ty == "f32" else proto.unhx(tok)
+        tables = {}
+        for ci, (ty, ln, osf, fc, win) in enumerate(cfgs):
+            key = f"{ty} {{}} {ln} {osf} {hx32(fc)} {win}"
+            ts = {}
+            for kd in kinds:
+                o = tabs.get("tab " + key.format(kd), "missing")
+                if o == "unavailable":
+                    unavailable.add(kd)
+                    continue
+                ts[kd] = o
+            if "scalar" not in ts or not ts["scalar"].startswith("t "):
+                disag.append({"what": "kern-table", "cfg": key, "real": str(ts)[:200]})
+                continue
+            for kd in ts:
+                if ts[kd] != ts["scalar"]:
+                    viols.append({"property": "C15", "kind": kd, "clause": "table-differs-from-scalar", "calm": True,
+                                  "step": 0, "op": "tab " + key.format(kd), "detail": "packed taps read out with unit "
+                                  "impulses differ from the scalar table", "ops": [], "meta": {"cfg": key}})
+            vals = [dec(x, ty) for x in ts["scalar"][2:].split(",")]
+            tables[ci] = vals
+            if have_model and ci < len(mout) and mout[ci].startswith("t "):
+                mv = [dec(x, ty) for x in mout[ci][2:].split(",")]
+                tol = 2e-6 if ty == "f32" else 1e-12
+                peak = max(abs(v) for v in vals) or 1.0
+                if len(mv) != len(vals) or any(not abs(a - b) <= tol * peak for a, b in zip(vals, mv)):
+                    disag.append({"what": "make_sincs-table", "cfg": key, "real": str(vals[:4]), "model": str(mv[:4])})
+            nq += 1
+        # 2. dot products
+        qlines, qmeta = [], []
+        for ci, (ty, ln, osf, fc, win) in enumerate(cfgs):
+            if ci not in tables:
+                continue
+            for _ in range(12 if self.tier == "quick" else 40):
+                wk = rng.choice(["imp", "int", "rnd", "dyn", "poi"])
+                index = rng.randint(0, 40)
+                wavelen = index + ln + rng.randint(1, 9)
+                sub = rng.randrange(osf)
+                arg = rng.randint(index, index + ln - 1) if wk == "imp" else rng.randint(0, 10 ** 6)
+                spec = f"{wk}:{arg}"
+                for kd in kinds:
+                    if kd in unavailable:
+                        continue
+                    qlines.append(f"dot {ty} {kd} {ln} {osf} {hx32(fc)} {win} {spec} {wavelen} {index} {sub}")
+                    qmeta.append((ci, kd, spec, wavelen, index, sub))
+            # precondition: index + len must be < wave.len()
+            for kd in kinds:
+                if kd in unavailable:
+                    continue
+                qlines.append(f"dot {ty} {kd} {ln} {osf} {hx32(fc)} {win} rnd:1 {ln + 3} 3 0")
+                qmeta.append((ci, kd, "oob", ln + 3, 3, 0))
+        qout, rc = run_lines([build.WORKER, "kern"], qlines)
+        # model kernels on the same inputs (table taken from the real crate: exact read-out)
+        mq, mqi = [], []
+        res = {}
+        for li, (meta, o) in enumerate(zip(qmeta, qout)):
+            res[(meta[0], meta[2], meta[3], meta[4], meta[5], meta[1])] = o
+        for li, (meta, o) in enumerate(zip(qmeta, qout)):
+            ci, kd, spec, wavelen, index, sub = meta
+            ty, ln, osf, fc, win = cfgs[ci]
+            if spec == "oob":
+                if o != "panic":
+                    viols.append({"property": "C15", "kind": kd, "clause": "missing-precondition-assert", "calm": True,
+                                  "step": 0, "op": qlines[li], "detail": o, "ops": [], "meta": {}})
+                continue
+            if not o.startswith("v "):
+                viols.append({"property": "C15", "kind": kd, "clause": "kernel-call-failed", "calm": True, "step": 0,
+                              "op": qlines[li], "detail": o, "ops": [], "meta": {}})
+                continue
+            v = dec(o[2:], ty)
+            wave = [kern_wave_value(spec, k, index, ln) for k in range(wavelen)]
+            if ty == "f32":
+                wave = [struct.unpack("<f", struct.pack("<f", w))[0] if w == w else w for w in wave]
+            taps = tables[ci][sub * ln:(sub + 1) * ln]
+            if v != v:
+                viols.append({"property": "C15", "kind": kd, "clause": "reads-outside-window" if spec.startswith("poi") else "nan-result",
+                              "calm": True, "step": 0, "op": qlines[li], "detail": "NaN result", "ops": [], "meta": {}})
+                continue
+            exact = sum(Fraction(wave[index + k]) * Fraction(taps[k]) for k in range(ln))
+            bound = sum(abs(Fraction(wave[index + k]) * Fraction(taps[k])) for k in range(ln))
+            eps = 2.0 ** -23 if ty == "f32" else 2.0 ** -52
+            if abs(Fraction(v) - exact) > Fraction(eps) * (ln + 8) * bound + Fraction(1, 10 ** 300):
+                viols.append({"property": "C15", "kind": kd, "clause": "kernel-differs-from-dot-product", "calm": True,
+                              "step": 0, "op": qlines[li],
+                              "detail": {"got": v, "exact": float(exact), "sum_abs_products": float(bound)},
+                              "ops": [], "meta": {}})
+                continue
+            if spec.startswith("imp") and kd != "scalar":
+                so = res.get((ci, spec, wavelen, index, sub, "scalar"))
+                if so is not None and so != o:
+                    viols.append({"property": "C15", "kind": kd, "clause": "impulse-tap-differs-from-scalar", "calm": True,
+                                  "step": 0, "op": qlines[li], "detail": {"simd": o, "scalar": so}, "ops": [], "meta": {}})
+            distinct.add((ty, ln, osf, win, spec.split(":")[0], index % 8))
+            nq += 1
+            if have_model and not spec.startswith("poi"):
+                wh = ",".join((hx32(w) if ty == "f32" else hx(w)) for w in wave)
+                sh = ",".join((hx32(t) if ty == "f32" else hx(t)) for t in taps)
+                mq.append(f"kdot {ty} {kd} {ln} {index} {wh} {sh}")
+                mqi.append((li, kd, ty, ln, float(bound)))
+            if len(samples) < 4:
+                samples.append({"query": qlines[li], "real": o})
+        if have_model and mq:
+            mo, _ = run_lines([build.DRIVER], mq)
+            for (li, kd, ty, ln, bound), m in zip(mqi, mo):
+                r = qout[li]
+                if kd in ("scalar", "sse"):
+                    if m != r:
+                        disag.append({"what": "kernel-model-bits", "op": qlines[li], "real": r, "model": m})
+                else:
+                    a, b = dec(r[2:], ty), dec(m[2:], ty) if m.startswith("v ") else float("nan")
+                    eps = 2.0 ** -23 if ty == "f32" else 2.0 ** -52
+                    if not abs(a - b) <= eps * (ln + 8) * bound + 1e-300:
+                        disag.append({"what": "kernel-model-tolerance", "op": qlines[li], "real": r, "model": m})
+        cov = {"evaluations": len(qlines) + len(lines), "traces_validated_against_impl": len(mq), "distinct": distinct,
+               "dist": {"kernels": kinds, "unavailable": sorted(unavailable), "configs": len(cfgs),
+                        "model_bit_exact_checks": len([1 for x in mqi if x[1] in ("scalar", "sse")])},
+               "samples": samples}
+        return {"coverage": cov, "disagreements": disag[:5], "violations": viols[:5], "notes": notes}
